@@ -65,6 +65,17 @@ func NewYAMLAccountManager(accountDir string) (*YAMLAccountManager, error) {
 			}
 		}
 
+		// A crash between the two steps of a login change (Update) leaves the account, already carrying its new
+		// login, under its old file name.  Finish the rename so that the file name matches the login again; otherwise
+		// later updates and deletes of the account address a file that does not exist.
+		if wantPath := filepath.Join(accountDir, path.Join("/", account.Login)+".yaml"); account.Login != "" && wantPath != filePath {
+			if _, err := os.Stat(wantPath); os.IsNotExist(err) {
+				if err := os.Rename(filePath, wantPath); err != nil {
+					return nil, fmt.Errorf("finish account rename: %v", err)
+				}
+			}
+		}
+
 		accountMgr.accounts[account.Login] = account
 	}
 
